@@ -577,7 +577,10 @@ def judge(case, call, rec, faulted):
         if t["d"] == 1 and iv != t["ray"]:
             out.append(core.violation("not_unique_ray", "returned %s, the unique minimal solution is %s" % (iv, t["ray"]), sig))
         hard = bool(rec["faults"]) and all(f["kind"] in HARD_FAILURES for f in rec["faults"])
-        if t["d"] >= 2 and mode == "none" and (not faulted or hard) and not dup:
+        told = bool(rec["faults"]) and all(f["kind"] == "sol_set" and str(f.get("text", "")).startswith("Stopped") for f in rec["faults"])
+        if told:
+            sig = dict(sig, solver_said_not_optimal=True)
+        if t["d"] >= 2 and mode == "none" and (not faulted or hard or told) and not dup:
             bound = sum(iv)
             best, wit = NS.min_positive_sum(t["A"], len(iv), bound)
             if best is not None and best < bound:
@@ -665,6 +668,25 @@ def sol_set_plans(case, call):
             vecs.append(([a + b for a, b in zip(prim[0], prim[1])], "Infeasible - objective value 0.00000000"))
             vecs.append(([a - b for a, b in zip(prim[0], prim[1])], "Infeasible - objective value 0.00000000"))
         vecs.append(([0] * len(t["keys"]), "Infeasible - objective value 0.00000000"))
+        if t["feasible"] and t["d"] >= 2:
+            best, wit = NS.min_positive_sum(t["A"], len(t["keys"]), 40)
+            pos = [v for v in prim if all(x > 0 for x in v)]
+            if wit is not None:
+                cand = [a + b for a, b in zip(wit, pos[0])] if pos else None
+                if cand is None:
+                    # wit plus a null vector that keeps it positive
+                    for b in prim:
+                        for sgn in (1, -1):
+                            c2 = [a + sgn * x for a, x in zip(wit, b)]
+                            if all(x > 0 for x in c2) and c2 != wit:
+                                cand = c2
+                                break
+                        if cand:
+                            break
+                if cand and reduce(gcd, cand) == 1 and sum(cand) > best:
+                    # an incumbent the solver explicitly labels as not proven optimal
+                    vecs.append((cand, "Stopped on time - objective value %d.00000000" % sum(cand)))
+                    vecs.append((cand, "Stopped on nodes - objective value %d.00000000" % sum(cand)))
     order = _ilp_order(case)
     pos = {k: i for i, k in enumerate(t["keys"])}
     out = []
